@@ -95,6 +95,8 @@ type Interp struct {
 	ifaceImp      map[string][]*ssa.Function
 	frames        []*frame
 	fpVisit       map[*Cell]bool
+	initRuns      map[*ssa.Package]map[string]*Val
+	noInitEval    bool
 	Recur         map[token.Pos]*Val // loop accumulator (by phi position) → its step expression
 	PathSensitive map[string]bool
 	TagFns        map[*ssa.Function]string // results of these functions are marked with their static call path
@@ -642,8 +644,51 @@ func (in *Interp) globalConst(path string) *Val {
 			}
 		}
 	}
+	if out == nil {
+		if _, ok := in.P.GlobalInit(g); ok {
+			if in.noInitEval {
+				// inside the evaluation of the initialiser itself: the (single) store seen so far is the value
+				if st := in.pathSt[path]; st != nil && st.K != nil {
+					return &Val{K: st.K, Sym: st.Sym}
+				}
+				return nil
+			}
+			// never re-assigned, initialised by an expression: evaluate the package initialiser once
+			out = in.initValue(g)
+		}
+	}
 	in.globK[g] = out
 	return out
+}
+
+// initValue evaluates the package initialiser (constant folding of the big.Int / arithmetic builders it uses)
+// and returns the constant stored to g, if it is one.
+func (in *Interp) initValue(g *ssa.Global) *Val {
+	if in.initRuns == nil {
+		in.initRuns = map[*ssa.Package]map[string]*Val{}
+	}
+	vals, done := in.initRuns[g.Pkg]
+	if !done {
+		vals = map[string]*Val{}
+		in.initRuns[g.Pkg] = vals
+		initFn := g.Pkg.Func("init")
+		if initFn != nil && !in.noInitEval {
+			sub := NewInterp(in.P)
+			sub.noInitEval = true
+			sub.MaxSteps = 3_000_000
+			func() {
+				defer func() { recover() }()
+				// only the initialiser's own straight-line code: calls into other packages' init are external/no-ops
+				sub.callFn(initFn, nil)
+			}()
+			for k, v := range sub.pathSt {
+				if v != nil && v.K != nil && strings.HasPrefix(k, "G:") {
+					vals[k] = &Val{K: v.K, Sym: v.Sym}
+				}
+			}
+		}
+	}
+	return vals["G:"+shortPkg(g.Pkg.Pkg)+"."+g.Name()]
 }
 
 func (in *Interp) store(act *activation, b *ssa.BasicBlock, site token.Pos, ptr *Val, x *Val) {
